@@ -267,6 +267,10 @@ def _get_dataclass_type_from_callable(
         assert is_dataclass_type(dataclass_fn_type)
         return dataclass_fn_type
 
+    # The return annotation is already a type (e.g. `def make_a() -> A`, without postponed annotations).
+    assert is_dataclass_type(signature.return_annotation), signature.return_annotation
+    return signature.return_annotation
+
 
 def is_lambda(obj: Any) -> bool:
     """Returns True if the given object is a lambda expression.
